@@ -8,10 +8,13 @@ checker is run on every real compiler output against the reference interpretatio
 universal claim over sheets needs the compiler model (M4) and is discharged per sheet by (1);
 for ALL sheets of the fragment `CoreSheet.inFragment` it is PROVED with the Lean compiler model in
 place of the real compiler: `compile_refines_reference` / `C02_fragment` (lock-step simulation of
-the compiler machine and the reference's pass 1 + traces depend only on the index-resolved
-abstraction of a flow); the fragment: action rows and `wait_for_response` / `split_by_value` /
-`split_by_group` rows with conditional and unconditional edges; `C02_fragment_full` names what is
-left.
+the compiler machine and the reference's pass 1, then a bisimulation up to node splitting between
+the index-resolved abstractions of the two flows).  The fragment: every row type of a core sheet
+except `no_op` and `insert_as_block` — action rows (left unconditionally and conditionally: the
+compiler's router node behind the action node), `wait_for_response` / `split_by_value` /
+`split_by_group` / `split_random` rows, `start_new_flow` / `call_webhook` / `transfer_airtime` rows,
+`go_to`, `hard_exit`, `loose_exit`; explicit category names; no given node identifiers / node
+names (no merging), no blocks.  `C02_fragment_full` names what is left.
 -/
 import Rpft.Lemmas.Bisim
 import Rpft.FlowSys
@@ -154,23 +157,35 @@ environment answers and every length the contact observes the same actions in th
 faces the same decisions (operand, ordered tests with their arguments, wait / timeout, result name)
 in the compiled flow as in the meaning of the rows.  Both readings are taken from ONE list of parsed
 rows (`CoreSheet.CRow`; `toEvent` / `toRRow` are cross-checked against the inputs the harness builds
-on every explored sheet).  The fragment: action rows and deciding rows (`wait_for_response` with or
-without timeout, `split_by_value`, `split_by_group`), any number of conditional or unconditional
-edges per row — chains, trees, joins, last-edge-wins defaults, tests appended in row order,
-"No Response" branches — under the single-meaning conditions `edgeOk` / `distinctTests`.
+on every explored sheet).  The fragment (`CoreSheet.inFragment`, decidable):
+* rows: action rows; `wait_for_response` (with or without timeout), `split_by_value`,
+  `split_by_group`, `split_random`; `start_new_flow`, `call_webhook`, `transfer_airtime` (performing
+  their own action); `go_to` (its edges enter the named rows, cycles included); `hard_exit` /
+  `loose_exit` (the paths end); no given node identifier or node name, the action as the
+  documentation describes it (`rowOk`);
+* edges: any number of conditional or unconditional edges per row with explicit `from` row ids,
+  blank `from` or `start` — chains, trees, joins, last-edge-wins defaults, tests appended in row
+  order, "No Response" branches, buckets by name, fixed outcomes by word; an action row left
+  conditionally gets a router node behind its node (two compiled nodes for one reference node);
+* single-meaning conditions, each forced (negative witnesses below): `edgeOk` (no variable on an edge
+  leaving a wait row; the reserved "no response" only on edges leaving a wait row; no generated
+  bucket name used explicitly), `distinctTests`, `sameVars` (one variable per action row),
+  `freshNames` (an explicit category name is new when it is used).
 Proof: lock-step simulation of the compiler machine and pass 1 of the reference (after every prefix
-of the sheet, arena node `j` is the compiled form of row `j` with the out-edges recorded for `j`:
-`CoreSheet.Rel`, `row_sim`), then equality of the index-resolved abstractions of the two flows
-(`Flow.trace_eq_of_abs`: identifiers do not matter; `Flow.Positional`: in a switch node built case
-by case, answer `c` leads where exit `c` leads).  Category names are not observed (C02's level);
-`rnf`: whether result names are. -/
+of the sheet, the arena nodes of row `j` are the compiled form of row `j` with the out-edges recorded
+for `j`: `CoreSheet.Rel`, `row_sim`), then a bisimulation between the index-resolved abstractions of
+the two flows in which a reference node may correspond to TWO compiled nodes (`Flow.SplitOf`,
+`Flow.run_split`; entering a node does not depend on the fuel once it exceeds the number of nodes:
+`Flow.aEnter_stable`); identifiers do not matter (`Flow.trace_abs`), in a switch node built case by
+case answer `c` leads where exit `c` leads (`Flow.Positional`, `Flow.CatsPos`).  Category names are
+not observed (C02's level); `rnf`: whether result names are. -/
 theorem compile_refines_reference (rnf : Bool) (testTypes : List Str)
     (rows : List CoreSheet.CRow) (out : Compile.Out) (r : Flow.Flow)
     (hF : CoreSheet.inFragment rows = true)
     (hc : Compile.compile RefFlow.noArgsTests testTypes (rows.map CoreSheet.toEvent) = .ok out)
     (hr : RefFlow.refFlow (rows.map CoreSheet.toRRow) = .ok r) :
     ∀ env n, trace ⟨false, rnf⟩ r env n = trace ⟨false, rnf⟩ (Compile.renderOut out) env n :=
-  fun env n => trace_eq_of_abs _ _ _ (CoreSheet.fragment_abs rnf testTypes rows out r hF hc hr) env n
+  fun env n => CoreSheet.fragment_trace rnf testTypes rows out r hF hc hr env n
 
 /-- the statement at the observation level of C02, with the source's table of tests without
 argument (`tables_agree` below) -/
@@ -183,10 +198,11 @@ theorem C02_fragment (testTypes : List Str) (rows : List CoreSheet.CRow) (out : 
 
 /-- What is NOT proved universally: the same statement for every sheet the parser accepts, i.e.
 with a weaker `wf` than `inFragment` (the documented single-meaning conditions DESIGN §5 C02 WF,
-NoopStable) — conditional edges leaving action rows (a router node is created behind the action:
-two compiled nodes for one reference node), `split_random`, sub-flow / webhook / airtime rows,
-`go_to`, `hard_exit` / `loose_exit`, `no_op`, explicit category names, node merging, blocks.
-Decided per explored sheet by `flows_equiv_of_cert` on the real output. -/
+NoopStable).  Left out of the fragment: `no_op` rows (their router is created lazily and their
+parents are re-connected: F-C02-b lives there), rows naming an existing node (`_nodeId` / node name:
+node merging), blocks (`insert_as_block`, `begin_block` / `end_block`: the block clause of C03), and
+rows that do not stand for themselves in the documentation's table.  Decided per explored sheet by
+`flows_equiv_of_cert` on the real output. -/
 def C02_fragment_full (wf : List CoreSheet.CRow → Prop) : Prop :=
   ∀ (testTypes : List Str) (rows : List CoreSheet.CRow) (out : Compile.Out) (r : Flow.Flow),
     wf rows → Compile.compile RefFlow.noArgsTests testTypes (rows.map CoreSheet.toEvent) = .ok out →
@@ -200,29 +216,64 @@ def C02_fragment_full (wf : List CoreSheet.CRow → Prop) : Prop :=
 node identifier, a different action content in the documentation's table -/
 def mkRow (id type : String) (edges : List (String × String)) (act : Option String) (nr : String := "")
     (expr : String := "") (var : String := "") (name : String := "") (uuid : String := "")
-    (ract : Option String := none) : CoreSheet.CRow :=
+    (ract : Option String := none) (dests : List String := []) : CoreSheet.CRow :=
   { row := { rowId := id.toList, type := type.toList,
              edges := edges.map (fun (f, v) => ⟨f.toList, ⟨v.toList, if v = "" then [] else var.toList, [],
                                                           if v = "" then [] else name.toList⟩⟩),
              action := act.map String.toList, actionOk := true, ownAction := none, nodeUuid := uuid.toList,
              nodeName := [], saveName := "res".toList, noResponse := nr.toList, expression := expr.toList,
-             flowName := [], dests := [], resultKey := none, nodeOk := true },
+             flowName := [], dests := dests.map String.toList, resultKey := none, nodeOk := true },
     refAct := (match ract with | some x => some x | none => act).map String.toList }
 
-def exTests : List Str := ["has_any_word".toList, "has_group".toList]
+/-- a row with fixed outcomes (`start_new_flow`, `call_webhook`, `transfer_airtime`): the content of
+its own action, the key of the result it reads; optional: a different action content in the
+documentation's table -/
+def mkFix (id type : String) (edges : List (String × String)) (own : String) (key : Option String := none)
+    (ract : Option String := none) : CoreSheet.CRow :=
+  { row := { (mkRow id type edges none).row with ownAction := some own.toList, resultKey := key.map String.toList },
+    refAct := some ((ract.getD own).toList) }
 
-/-- a message, a wait with timeout left by two tests, an unconditional edge (default) and a
-"No Response" edge, a join into a group split, a value split, joins at the end -/
+def exTests : List Str :=
+  ["has_any_word".toList, "has_group".toList, "has_only_text".toList, "has_category".toList]
+
+/-- a message, a wait with timeout left by two tests (the category of the first one named explicitly), an unconditional edge (default) and a
+"No Response" edge, a join into a group split, a value split, joins, a `start_new_flow` row left
+on Completed and on Expired, a `call_webhook` row left on Success and unconditionally (= Failure), a
+`transfer_airtime` row left on Failure and on Success (any case of the letters), a `split_random`
+row with a named bucket that is redirected later, an unnamed bucket and a second named bucket, a
+`hard_exit`, a `go_to` with two
+edges back to the first row (a cycle), a row after them with blank `from` (it follows the last
+node-producing row), a `loose_exit`, an action row left on two tests of the reply and unconditionally
+(the compiler creates a waiting router node behind its node), an action row left on two tests of a
+variable (a router node that does not wait) -/
 def exRows : List CoreSheet.CRow :=
   [ mkRow "a" "send_message" [("start", "")] (some "A"),
     mkRow "w" "wait_for_response" [("a", "")] none "60",
-    mkRow "y" "send_message" [("w", "yes")] (some "Y"),
+    mkRow "y" "send_message" [("w", "yes")] (some "Y") "" "" "" "Affirmative",
     mkRow "n" "send_message" [("w", "no")] (some "N"),
     mkRow "t" "send_message" [("w", "No Response")] (some "T"),
     mkRow "g" "split_by_group" [("y", ""), ("n", "")] none,
     mkRow "m" "send_message" [("g", "members"), ("w", "")] (some "M"),
     mkRow "v" "split_by_value" [("g", "")] none "" "@fields.x",
-    mkRow "z" "send_message" [("v", "7"), ("t", "")] (some "Z") ]
+    mkRow "z" "send_message" [("v", "7"), ("t", "")] (some "Z"),
+    mkFix "f" "start_new_flow" [("m", "")] "enter F",
+    mkRow "fc" "send_message" [("f", "Completed")] (some "FC"),
+    mkFix "h" "call_webhook" [("f", "expired"), ("fc", "")] "hook H" (some "res"),
+    mkFix "p" "transfer_airtime" [("h", "Success")] "air P" (some "res"),
+    mkRow "pf" "send_message" [("h", ""), ("p", "failure"), ("p", "SUCCESS")] (some "PF"),
+    mkRow "s" "split_random" [("pf", "")] none,
+    mkRow "s1" "send_message" [("s", "A")] (some "S1"),
+    mkRow "s2" "send_message" [("s", "")] (some "S2"),
+    mkRow "s3" "send_message" [("s", "A"), ("s", "B")] (some "S3"),
+    mkRow "" "hard_exit" [("g", "")] none,
+    mkRow "" "go_to" [("z", ""), ("v", "")] none "" "" "" "" "" none ["a"],
+    mkRow "q" "send_message" [("", "")] (some "Q"),
+    mkRow "" "loose_exit" [("q", "")] none,
+    mkRow "qa" "send_message" [("q", "one")] (some "QA") "" "" "" "First",
+    mkRow "qb" "send_message" [("q", "two"), ("q", "")] (some "QB") "" "" "" "Second",
+    mkRow "u" "send_message" [("qa", ""), ("qb", "")] (some "U"),
+    mkRow "ua" "send_message" [("u", "x")] (some "UA") "" "" "@fields.k",
+    mkRow "ub" "send_message" [("u", "y")] (some "UB") "" "" "@fields.k" ]
 
 /-- the two traces of a sheet (compiler model / reference) under an environment, when both exist -/
 def bothTraces (rows : List CoreSheet.CRow) (env : Nat → Nat) (n : Nat) : Option (List Obs × List Obs) :=
@@ -231,26 +282,35 @@ def bothTraces (rows : List CoreSheet.CRow) (env : Nat → Nat) (n : Nat) : Opti
   | .ok out, .ok r => some (trace ⟨false, true⟩ (Compile.renderOut out) env n, trace ⟨false, true⟩ r env n)
   | _, _ => none
 
-/-- non-vacuity: the sheet is in the fragment, the compiler model compiles it (nine nodes), the
-reference interpretation exists (nine nodes) — and, as the theorem says, the traces agree (checked
-here for two answer streams) -/
+/-- non-vacuity: the sheet is in the fragment, the compiler model compiles it (26 nodes: two of the
+action rows have a router node behind their node), the reference interpretation exists (24 nodes) -/
 example : CoreSheet.inFragment exRows = true ∧
     (∃ out, Compile.compile RefFlow.noArgsTests exTests (exRows.map CoreSheet.toEvent) = .ok out ∧
-      out.nodes.length = 9) ∧
-    (∃ r, RefFlow.refFlow (exRows.map CoreSheet.toRRow) = .ok r ∧ r.nodes.length = 9) ∧
-    (bothTraces exRows (fun k => k) 8).map (fun p => decide (p.1 = p.2)) = some true ∧
-    (bothTraces exRows (fun k => 2 * k + 1) 8).map (fun p => decide (p.1 = p.2)) = some true := by
-  refine ⟨by decide +kernel, ?_, ?_, by decide +kernel, by decide +kernel⟩
+      out.nodes.length = 26) ∧
+    (∃ r, RefFlow.refFlow (exRows.map CoreSheet.toRRow) = .ok r ∧ r.nodes.length = 24) := by
+  refine ⟨by decide +kernel, ?_, ?_⟩
   · have h : (match Compile.compile RefFlow.noArgsTests exTests (exRows.map CoreSheet.toEvent) with
-        | .ok out => decide (out.nodes.length = 9) | .error _ => false) = true := by decide +kernel
+        | .ok out => decide (out.nodes.length = 26) | .error _ => false) = true := by decide +kernel
     split at h
     · rename_i out ho; exact ⟨out, ho, by simpa using h⟩
     · cases h
   · have h : (match RefFlow.refFlow (exRows.map CoreSheet.toRRow) with
-        | .ok r => decide (r.nodes.length = 9) | .error _ => false) = true := by decide +kernel
+        | .ok r => decide (r.nodes.length = 24) | .error _ => false) = true := by decide +kernel
     split at h
     · rename_i r hr; exact ⟨r, hr, by simpa using h⟩
     · cases h
+
+/-- … and, as the theorem says, the traces agree: checked here for four answer streams, the third one
+passing the three rows with fixed outcomes and the `split_random` row, the fourth one the two action
+rows that are left conditionally -/
+example :
+    (bothTraces exRows (fun k => k) 8).map (fun p => decide (p.1 = p.2)) = some true ∧
+    (bothTraces exRows (fun k => 2 * k + 1) 8).map (fun p => decide (p.1 = p.2)) = some true ∧
+    (bothTraces exRows (fun k => if k = 0 then 3 else if k = 2 then 1 else 0) 15).map
+      (fun p => decide (p.1 = p.2 ∧ p.1.length = 15)) = some true ∧
+    (bothTraces exRows (fun _ => 0) 24).map
+      (fun p => decide (p.1 = p.2 ∧ Obs.act "QA".toList ∈ p.1 ∧ Obs.act "UA".toList ∈ p.1)) = some true :=
+  ⟨by decide +kernel, by decide +kernel, by decide +kernel, by decide +kernel⟩
 
 /-- outside the fragment, with both readings defined and the traces DIFFERENT -/
 def refuted (rows : List CoreSheet.CRow) (n : Nat) : Bool :=
@@ -263,6 +323,66 @@ def refuted (rows : List CoreSheet.CRow) (n : Nat) : Bool :=
 C02 that is about action content, a parameter of both models) -/
 theorem fragment_needs_same_action :
     refuted [mkRow "a" "send_message" [("start", "")] (some "A") "" "" "" "" "" (some "B")] 1 = true := by
+  decide +kernel
+
+/-- clause "a row with fixed outcomes performs its own action, as the documentation describes it" -/
+theorem fragment_needs_same_own_action :
+    refuted [mkFix "f" "start_new_flow" [("start", "")] "enter F" none (some "enter G")] 1 = true := by
+  decide +kernel
+
+/-- clause "a bucket of a `split_random` row is not given a name the compiler generates" (`Bucket N`):
+the compiler takes the named edge for the unnamed bucket it numbered so, the documentation for a new
+bucket -/
+theorem fragment_needs_no_generated_bucket_name :
+    refuted [mkRow "r" "split_random" [("start", "")] none,
+             mkRow "x" "send_message" [("r", "")] (some "X"),
+             mkRow "y" "send_message" [("r", "Bucket 2")] (some "Y")] 3 = true := by
+  decide +kernel
+
+/-- the same clause for the names the reference interpretation generates (`#n`) -/
+theorem fragment_needs_no_hash_bucket_name :
+    refuted [mkRow "r" "split_random" [("start", "")] none,
+             mkRow "x" "send_message" [("r", "")] (some "X"),
+             mkRow "y" "send_message" [("r", "#0")] (some "Y")] 3 = true := by
+  decide +kernel
+
+/-- clause `freshNames`: an explicit category name that is in use — here the name of the default
+category — makes the compiler share that category -/
+theorem fragment_needs_fresh_category_name :
+    refuted [mkRow "w" "wait_for_response" [("start", "")] none,
+             mkRow "y" "send_message" [("w", "yes")] (some "Y") "" "" "" "Other",
+             mkRow "n" "send_message" [("w", "")] (some "N")] 3 = true := by
+  decide +kernel
+
+/-- the same clause: the explicit name is the one GENERATED for an earlier test -/
+theorem fragment_needs_no_generated_category_name :
+    refuted [mkRow "w" "wait_for_response" [("start", "")] none,
+             mkRow "y" "send_message" [("w", "yes")] (some "Y"),
+             mkRow "n" "send_message" [("w", "no")] (some "N") "" "" "" "Yes"] 3 = true := by
+  decide +kernel
+
+/-- clause "the conditional edges leaving one action row name the same variable": the router the
+compiler puts behind the node decides on the variable named LAST, the documentation on the one named
+first -/
+theorem fragment_needs_same_variable :
+    refuted [mkRow "a" "send_message" [("start", "")] (some "A"),
+             mkRow "y" "send_message" [("a", "yes")] (some "Y") "" "" "@fields.x",
+             mkRow "n" "send_message" [("a", "no")] (some "N") "" "" "@fields.y"] 3 = true := by
+  decide +kernel
+
+/-- clause "a condition on an edge leaving an action row is not the reserved `no response`": the
+compiler drops such an edge once the router node exists (a warning), the documentation reads a test -/
+theorem fragment_needs_no_noresponse_on_action :
+    refuted [mkRow "a" "send_message" [("start", "")] (some "A"),
+             mkRow "y" "send_message" [("a", "yes")] (some "Y"),
+             mkRow "t" "send_message" [("a", "No Response")] (some "T")] 3 = true := by
+  decide +kernel
+
+/-- clause `distinctTests` for action rows -/
+theorem fragment_needs_distinct_tests_on_action :
+    refuted [mkRow "a" "send_message" [("start", "")] (some "A"),
+             mkRow "y" "send_message" [("a", "yes")] (some "Y"),
+             mkRow "n" "send_message" [("a", "yes")] (some "N")] 4 = true := by
   decide +kernel
 
 /-- clause "no node identifier is given": a given `_nodeId` that collides with an identifier the
